@@ -80,6 +80,10 @@ def build_jobs(work, quick, rng):
     # the plot-only rank is not rank 0
     add("setup", 4, {"cfile": cfile, "layout": "v_parallel", "plot": True, "draw": 3, "folder": None})
     add("setup", 3, {"cfile": cfile, "layout": "flux_surface", "plot": True, "draw": 1, "folder": None})
+    # the restart set-up, without and with a plot-only rank
+    add("restart", 3, {"cfile": cfile, "folder": os.path.join(work, "rs%d" % len(jobs)), "plot": False, "draw": 0})
+    add("restart", 2, {"cfile": cfile, "folder": os.path.join(work, "rs%d" % len(jobs)), "plot": False, "draw": 1})
+    add("restart", 4, {"cfile": cfile, "folder": os.path.join(work, "rs%d" % len(jobs)), "plot": True, "draw": 2})
     add("diag", 4, {"cfile": cfile})
     add("diag", 2, {"cfile": cfile, "savestep": 1})
     return jobs
@@ -162,8 +166,36 @@ def run(ctx):
             # a rank that raised an ordinary exception leaves prefixes that say nothing about C06
             bad = [d for d in per_seed if not d["ok"] and d["describe"].startswith("rank ")]
             if bad:
-                ctx.note("scenario %s not judged: %s" % (sid, bad[0]["describe"][:200]))
-                ctx.extra.setdefault("not_judged", []).append(sid)
+                # a rank that raised before reaching a collective which another member of that communicator has ALREADY issued never
+                # arrives there: the others wait for ever (a definite mismatch of the per-rank sequences, whatever else the exception
+                # means).  Without such evidence in any recorded schedule the scenario says nothing about C06.
+                import re as _re
+                proof = None
+                for d in bad:
+                    mm = _re.match(r"rank (\d+) raised", d["describe"])
+                    if not mm or not d.get("progs"):
+                        continue
+                    r = int(mm.group(1))
+                    mine = {}
+                    for cl in d["progs"][r]:
+                        mine[cl["comm"]] = max(mine.get(cl["comm"], 0), cl["k"])
+                    for q, pq in enumerate(d["progs"]):
+                        for cl in pq:
+                            if q != r and (r + 1) in d["comms"].get(cl["comm"], []) and cl["k"] > mine.get(cl["comm"], 0):
+                                proof = (r, q, cl, d["describe"])
+                                break
+                        if proof:
+                            break
+                    if proof:
+                        break
+                if proof:
+                    r, q, cl, desc = proof
+                    ctx.violation({"kind": "collective-program", "scenario": j["scn"], "what": "rank-leaves-before-a-collective-others-issued"},
+                                  "scenario %s: %s - before issuing call %d on %s (%s), which rank %d had already issued: that rank waits for ever" % (
+                                      sid, desc[:200], cl["k"], cl["comm"], cl["op"], q), {"scenario": {k: v for k, v in j.items() if k != "params"} | {"params": j.get("params")}})
+                else:
+                    ctx.note("scenario %s not judged: %s" % (sid, bad[0]["describe"][:200]))
+                    ctx.extra.setdefault("not_judged", []).append(sid)
                 continue
             sets = []
             if len(per_seed) > 1:
